@@ -3,6 +3,7 @@ import Chokan.Model.Romaji
 import Chokan.Gen.Romaji
 import Driver.DicOps
 import Driver.KanaOps
+import Driver.TrieOps
 
 namespace Driver
 open Chokan
@@ -19,11 +20,17 @@ def romaOps (op : String) (arg : String) : Option String :=
   | "sokuon" => some ("ok " ++ (if Romaji.sokuonP cs (parseCps arg) then "t" else "nil"))
   | _ => none
 
-def handle (line : String) : String :=
+structure State where
+  trie : Option Chokan.Trie.Trie := none
+
+def handle (st : State) (line : String) : State × String :=
   let (op, arg) := splitOp line
-  let r := ((romaOps op arg).orElse fun _ => dicOps op arg).orElse fun _ => kanaOps op arg
-  match r with
-  | some r => r.trimAsciiEnd.toString
-  | none => "bad-op"
+  match trieOps st.trie op arg with
+  | some (t, r) => ({ st with trie := t }, r.trimAsciiEnd.toString)
+  | none =>
+    let r := ((romaOps op arg).orElse fun _ => dicOps op arg).orElse fun _ => kanaOps op arg
+    match r with
+    | some r => (st, r.trimAsciiEnd.toString)
+    | none => (st, "bad-op")
 
 end Driver
